@@ -166,3 +166,69 @@ def bq_acc(cap):
             return [("val", (e["slot"] + j) % cap, True) for j in range(e["n"])]
         return None
     return f
+
+
+def tlc_behaviours(mc_tla, cfg, num, depth, seed, workdir, lib_dirs=None):
+    """TLC -simulate on the L2 model: returns [(cap, base, prog_string, [thread per logged step, -1 = timer])]"""
+    import glob, os, re, shutil, subprocess, vlib
+    shutil.rmtree(workdir, ignore_errors=True)
+    os.makedirs(workdir)
+    libs = (lib_dirs or []) + [os.path.dirname(mc_tla), os.path.join(vlib.SPEC, "lib"), os.path.join(vlib.SPEC, "mo")]
+    cmd = ["java", "-XX:+UseParallelGC", "-Xmx4g", "-DTLA-Library=" + ":".join(libs), "-cp", vlib.JAR, "tlc2.TLC", "-metadir", os.path.join(workdir, "meta"),
+           "-config", cfg, "-simulate", "file=%s,num=%d" % (os.path.join(workdir, "tr"), num), "-depth", str(depth), "-workers", "1", "-seed", str(seed), mc_tla]
+    r = subprocess.run(cmd, capture_output=True, text=True, timeout=900, cwd=os.path.dirname(mc_tla))
+    if "Error:" in r.stdout:
+        raise vlib.Broken("TLC simulation failed: " + r.stdout[-2000:])
+    out = []
+    for f in sorted(glob.glob(os.path.join(workdir, "tr_*"))):
+        txt = open(f).read()
+        m = re.search(r"/\\ cfg = \[(.*?)\n/\\ ", txt, re.S) or re.search(r"/\\ cfg = \[(.*?)\]\s*\n\n", txt, re.S)
+        if not m:
+            continue
+        c = m.group(1)
+        cap = int(re.search(r"cap \|-> (\d+)", c).group(1))
+        base = int(re.search(r"base \|-> (\d+)", c).group(1))
+        pm = c[c.index("prog |->"):]
+        # threads are the top-level tuples of prog: split on ">>," at depth 1
+        depth_, cur, threads = 0, "", []
+        i = pm.index("<<")
+        j = i
+        while j < len(pm):
+            if pm.startswith("<<", j):
+                depth_ += 1
+                if depth_ == 2:
+                    cur = ""
+                j += 2
+                continue
+            if pm.startswith(">>", j):
+                depth_ -= 1
+                if depth_ == 1:
+                    threads.append(cur)
+                if depth_ == 0:
+                    break
+                j += 2
+                continue
+            if depth_ >= 2:
+                cur += pm[j]
+            j += 1
+        prog = []
+        for th in threads:
+            ops = []
+            for om in re.finditer(r"\[([^\]]*)\]", th):
+                o = om.group(1)
+                name = re.search(r'op \|-> "(\w+)"', o).group(1)
+                n = int(re.search(r"n \|-> (\d+)", o).group(1))
+                fl = "".join("1" if re.search(r"\b%s \|-> TRUE" % k, o) else "0" for k in ("c", "w", "k"))
+                ops.append("%s%s:%s" % (name, n if name.endswith("n") else "", fl))
+            prog.append(".".join(ops))
+        steps = []
+        for sm in re.finditer(r"/\\ ev = \[(.*?)\]\s*(?=\n\n|\n/\\|\Z)", txt, re.S):
+            e = sm.group(1)
+            k = re.search(r'\bk \|-> "(\w*)"', e).group(1)
+            t = int(re.search(r"\bt \|-> (\d+)", e).group(1))
+            if k == "":
+                continue
+            steps.append(-1 if k == "tick" else t)
+        out.append((cap, base, "_".join(prog), steps))
+    shutil.rmtree(workdir, ignore_errors=True)
+    return out
